@@ -129,6 +129,10 @@ def precision_rule(repo, res):
 def run(repo, res, tier):
     res.rule("RT-READ", "every emitted element / attribute / text is looked up by the reader as the same kind at the same place", 120)
     res.rule("RT-GUARD", "whether a value is written depends on that value only, not on a sibling attribute", 100)
+    res.rule("RT-STATE", "no mutable default argument is changed or handed out in the XML reader / writer", 1)
+    from .c02 import mutable_default_rule
+
+    mutable_default_rule(repo, res, ["commonroad/common/reader/file_reader_xml.py", "commonroad/common/writer/file_writer_xml.py"], "RT-STATE")
     res.rule("RT-TRUTH", "presence of an element is tested with `is None`, never by its truth value", 1)
     res.rule("RT-WRITTEN", "every schema-allowed name the reader looks up is emitted by the writer", 30)
     res.rule("RT-FLOW", "reader constructor keywords are fed from the leaves the writer fills from the corresponding attribute", 45)
